@@ -69,7 +69,8 @@ Start ==
     safe |-> FALSE,
     dirty |-> {},         \* globals that were given a different value since the current continue began (for observers)
     touched |-> {},       \* globals that were assigned at all since then
-    calls |-> <<>> ]      \* the calls of external functions so far, [f, args]
+    calls |-> <<>>,       \* the calls of external functions so far, [f, args]
+    last |-> <<>> ]       \* the containers the statement executed last lies in (what a jump by the host "comes from")
 
 Get(f, k, d) == IF k \in DOMAIN f THEN f[k] ELSE d
 Put(f, k, v) == (k :> v) @@ f
@@ -345,7 +346,10 @@ StepM(m) ==
   LET t == CurThread(m) IN
   IF t = <<>> \/ Head(t).fr = <<>> THEN [m EXCEPT !.st = "stopping"]
   ELSE LET f == Head(Head(t).fr) IN
-       IF f.i > Len(Body(f.b)) THEN PopFrame(m) ELSE Exec(m, Body(f.b)[f.i])
+       IF f.i > Len(Body(f.b)) THEN PopFrame(m)
+       ELSE LET m1 == Exec(m, Body(f.b)[f.i]) IN
+            \* (END forgets where the story stood, like a reset of the call stack)
+            [m1 EXCEPT !.last = IF m1.st = "end" THEN <<>> ELSE InChain(f.b)]
 
 \* the flow has stopped: follow an invisible fallback if it is the only thing on offer, else wait / end
 Settle(m) ==
